@@ -287,9 +287,11 @@ prop('C01',
                   'distributed key generation (C07: thm_honest_dkg / thm_honest_dkg_output give honest_keys on the sum polynomial; thm_honest_dkg_then_sign composes it with '
                   'thm_honest_aggregate_succeeds), so this is a premise only for keys of other origin',
                   'interoperability with external verifiers (dalek / libsecp256k1) is not decided here'],
-     include=['C06', 'C07'],   # "keys from the trusted dealer or from distributed key generation": the key-generation contracts and theorems count for C01
+     units=['frost_core', 'frost_rerandomized'],
+     include=['C06', 'C07', 'C17'],   # "keys from the trusted dealer or from distributed key generation": the key-generation contracts and theorems count for C01
      design_ref='DESIGN.md section 4 C01')
 prop('C03',
+     units=['frost_core', 'frost_rerandomized'], include=['C17'],   # the re-randomized entry points (C17: "cheater identification and threshold enforcement hold unchanged under randomization") count here too
      kani=True,
      level_text='Verus proves for all inputs: sign returns exactly Err(IncorrectNumberOfCommitments) when the package lists fewer than key_package.min_signers participants (first guard of '
                 'spec_sign); aggregate/aggregate_custom return exactly Err(IncorrectNumberOfShares) when fewer than public_key_package.min_signers shares are submitted (second guard '
@@ -303,6 +305,7 @@ prop('C03',
                   'generate_coefficients draws (assumed contract; Kani-backed, bounded)'],
      design_ref='DESIGN.md section 4 C03')
 prop('C04',
+     units=['frost_core', 'frost_rerandomized'], include=['C17'],   # the re-randomized entry points (C17: "cheater identification and threshold enforcement hold unchanged under randomization") count here too
      kani=True,
      level_text='Verus proves for all inputs that aggregate_custom satisfies agg_result_is: a returned signature is exactly (R, sum z_i) AND passes RFC 9591 verification under the group key for '
                 'the package message (ensures released_signatures_verify); if the sum does not verify the result is an error: with detection disabled the verification error (InvalidSignature) '
@@ -314,6 +317,7 @@ prop('C04',
      assumptions=['"honest share" is defined relative to verifying shares that are G*s_i and commitments that are G*d_i, G*e_i'],
      design_ref='DESIGN.md section 4 C04')
 prop('C05',
+     units=['frost_core', 'frost_rerandomized'], include=['C17'],   # the re-randomized entry points (C17: "cheater identification and threshold enforcement hold unchanged under randomization") count here too
      level_text='Verus proves for all inputs: sign returns exactly Err(MissingCommitment) when the signer has no entry in the package and Err(IncorrectCommitment) when the entry differs from the '
                 'commitments stored with the nonces (guards 2 and 3 of spec_sign, before any use of the nonces); a package containing an identity commitment is rejected by sign, aggregate '
                 'and verify_signature_share (exact error GroupError(InvalidIdentityElement)); share verification recomputes rho_i = H1(enc(vk)||H4(msg)||H5(enc(commitment list))||enc(id)), R, '
